@@ -10,9 +10,10 @@
     No bound on the length of the history, on the number of words or on the indices: arithmetic is
     unbounded [Z] (size hypothesis of DESIGN section 3: Go's int64 agrees while |o|, |idx| stay far below
     2^63, which no allocatable history can leave). *)
-From Coq Require Import ZArith List Bool.
+From Coq Require Import ZArith List Bool Lia.
 From Low Require Import Lib.Bits Lib.BitSeq Model.TailBitmap Spec.TailBitmapSpec Spec.TailBitmapInv
-  Proofs.TailBitmapProofs Proofs.TailBitmapHist Proofs.TailBitmapChecker Run.C15.
+  Spec.TailBitmapObs Proofs.TailBitmapProofs Proofs.TailBitmapHist Proofs.TailBitmapChecker
+  Proofs.TailBitmapSound Run.C15.
 Import ListNotations.
 Open Scope Z_scope.
 
@@ -108,6 +109,18 @@ Theorem C15_checker_accepts_model : forall o ps l,
 Proof. exact (fun o ps l => conj (model_history_accepted o ps l) (prun_accepted o ps l)). Qed.
 Print Assumptions C15_checker_accepts_model.
 
+(** The executable checker DECIDES the property of an observed history: on the observations of any
+    implementation (uint64 words), [check_history] answers true exactly when every observed state
+    satisfies the invariant for the indices set so far, Offset and the end are monotone, Offset only
+    passed set positions, every probe returned membership and Compact kept the end
+    ([obs_ok], Spec/TailBitmapObs.v).  So OK / SPECFAIL of ./check are statements about the property. *)
+Theorem C15_checker_decides_property : forall o ps obs, o mod 64 = 0 ->
+  Forall (fun ob => words_ok (snd (fst ob))) obs ->
+  (check_history o ps obs = true <-> obs_ok o (o, []) [] ps obs).
+Proof. exact check_history_iff. Qed.
+Print Assumptions C15_checker_decides_property.
+
+
 (** non-vacuity: o = 64; set 127 (the last bit of word 0), a set below the offset (ignored), fill
     word 0 back to front so that Offset advances to 128, set a bit two words further, probe a stored 1
     (Get1 and Get), a stored 0 and an implicit 1, Compact. *)
@@ -144,3 +157,14 @@ Example C15_checker_nonvacuous :
             length l = 6%nat /\
             check_history 64 [PSetUp 64 200; PGet1 199; PGet 200; PSet 255; PCompact; PSetDown 200 255] l = true.
 Proof. eexists. split; [vm_compute; reflexivity|]. vm_compute. auto. Qed.
+
+(** non-vacuity of the decision theorem: an accepted observed history, and a rejected one (a stored
+    bit that was never set: the implementation "invented" bit 70) *)
+Example C15_decides_nonvacuous :
+  check_history 64 [PSet 127; PGet1 127] [(64, [2^63], 0); (64, [2^63], 1)] = true /\
+  check_history 64 [PSet 127; PGet1 127] [(64, [2^63 + 64], 0); (64, [2^63 + 64], 1)] = false /\
+  Forall (fun ob : Z * list Z * Z => words_ok (snd (fst ob))) [(64, [2^63], 0); (64, [2^63], 1)].
+Proof.
+  split; [vm_compute; reflexivity|]. split; [vm_compute; reflexivity|].
+  repeat constructor; cbn; lia.
+Qed.
